@@ -472,3 +472,24 @@ func (bp *BytePred) ExecBody(info *types.Info, body *ast.BlockStmt) bool {
 	_, _, ok := bp.exec(info, body.List, bpEnv{}, 0)
 	return ok
 }
+
+// Env is an environment for EvalBool/EvalInt.
+type Env = bpEnv
+
+// BindAll returns an environment binding each object to its integer value.
+func BindAll(m map[types.Object]int64) Env {
+	e := bpEnv{}
+	for o, v := range m {
+		e[o] = bpVal{I: v}
+	}
+	return e
+}
+
+// EvalInt evaluates an integer expression under env.
+func (bp *BytePred) EvalInt(info *types.Info, e ast.Expr, env Env) (int64, bool) {
+	v, ok := bp.eval(info, e, env, 0)
+	if !ok || v.Is {
+		return 0, false
+	}
+	return v.I, true
+}
